@@ -231,6 +231,33 @@ def handleLife (j : Json) : Except String Json := do
       ("queued", jnat σ.queued), ("failed", Json.bool σ.failed), ("returned", Json.bool σ.returned), ("closed", Json.bool σ.closed),
       ("lost", jnat σ.lost), ("stuck", Json.bool (σ.closed && decide (0 < σ.waiting)))])
 
+/-! ### slot requests under transfer latency (virtual time) -/
+
+def parseLatEv (e : Json) : Except String LatEv := do
+  let (n, a) ← evName e
+  match n with
+  | "request" => pure .request
+  | "grant" => pure .grant
+  | "finish" => pure .finish
+  | "delay" => pure (.delay (← argNat a 0))
+  | "expire" => pure .expire
+  | _ => throw s!"unknown latency event {n}"
+
+def handleLat (j : Json) : Except String Json := do
+  let n ← getNat j "n"
+  let jobs ← getNat j "jobs"
+  let evs ← (← getArr j "events").toList.mapM parseLatEv
+  let tmo : Option Nat := match j.getObjVal? "timeoutMs" with
+    | .ok v => (match v.getNat? with | .ok t => some t | _ => none)
+    | _ => Lat.tmo
+  let tmoJ : Json := match tmo with | some t => jnat t | none => Json.null
+  match accepts (Lat.step tmo) (Lat.init n jobs) evs 0 with
+  | .error i => pure (Json.mkObj [("ok", Json.bool false), ("index", jnat i), ("why", Json.str "latency event not enabled"), ("timeoutMs", tmoJ)])
+  | .ok σ =>
+    pure (Json.mkObj [("ok", Json.bool true), ("timeoutMs", tmoJ), ("free", jnat σ.free), ("held", jnat σ.held),
+      ("waiting", jnat σ.waiting.length), ("queued", jnat σ.queued), ("done", jnat σ.done), ("timedOut", jnat σ.timedOut),
+      ("now", jnat σ.now), ("quiet", Json.bool σ.quiet)])
+
 def handleSched (op : String) (j : Json) : Except String Json := do
   match op with
   | "sched.flags" =>
@@ -245,7 +272,9 @@ def handleSched (op : String) (j : Json) : Except String Json := do
       ("popUnderGlock", Json.bool Gen.popUnderGlock), ("finaliseDecidedUnderLock", Json.bool Gen.finaliseDecidedUnderLock),
       ("decisionInsideRemoveBlock", Json.bool Gen.decisionInsideRemoveBlock),
       ("restoreJoinsLoadersOnFailure", Json.bool Gen.restoreJoinsLoadersOnFailure),
-      ("queueFactor", jnat Gen.queueFactor), ("loaderFactor", jnat Gen.loaderFactor)])
+      ("queueFactor", jnat Gen.queueFactor), ("loaderFactor", jnat Gen.loaderFactor),
+      ("slotWaitBounded", Json.bool Gen.slotWaitBounded), ("slotWaitTimeoutMs", jnat Gen.slotWaitTimeoutMs),
+      ("unmodelledTimedWaits", Json.arr (Gen.unmodelledTimedWaits.map Json.str).toArray)])
   | "sched.accepts" =>
     match ← getStr j "system" with
     | "slots" => handleSlots j
@@ -253,6 +282,7 @@ def handleSched (op : String) (j : Json) : Except String Json := do
     | "locks" => handleLocks j
     | "fin" => handleFin j
     | "life" => handleLife j
+    | "lat" => handleLat j
     | s => throw s!"unknown system {s}"
   | _ => throw s!"unknown op {op}"
 
